@@ -97,7 +97,6 @@ QUERIES = [
     ('mutating_expr', 'select star_fields.append(1)'),
 ]
 
-_js_csv_calls = [0]
 FRONTS = ['table', 'iter', 'csv', 'df', 'sqlite', 'sqlite_cli', 'js_table', 'js_iter', 'js_csv', 'cli_interactive']
 JOIN_IDS = {'cli_interactive': 'jt.csv', 'js_csv': 'jt.csv', 'table': 'B', 'iter': 'B', 'csv': 'jt.csv', 'df': 'B', 'sqlite': 'tb', 'sqlite_cli': 'tb', 'js_table': 'B', 'js_iter': 'B'}
 
@@ -281,6 +280,7 @@ class World(object):
                 df = self.dfA if which == 'A' else self.dfB
                 if len(df.index) and len(df.columns):
                     df.iat[r % len(df.index), c % len(df.columns)] = markers[kind]
+        self.txn_lost = None
         self.dfA_snap = self.dfA.copy(deep=True)
         self.dfB_snap = self.dfB.copy(deep=True)
         self.dfA_cells = df_cells(self.dfA)
@@ -363,6 +363,9 @@ class World(object):
             return ('sqlite_total_changes', {'total_changes': self.api_changes})
         if sha(self.db_path) != self.db_hash:
             return ('sqlite_changed', {})
+        if self.txn_lost is not None:
+            lost, self.txn_lost = self.txn_lost, None
+            return ('sqlite_caller_transaction_ended', lost)
         for name, df, snap in (('A', self.dfA, self.dfA_snap), ('B', self.dfB, self.dfB_snap)):
             if df_cells(df) != (self.dfA_cells if name == 'A' else self.dfB_cells):
                 # DataFrame.equals treats every missing-value marker alike (NaN == None == NA); the cells are compared by type and repr
@@ -535,6 +538,14 @@ def run_op(t, world, op):
                             if op.get('pending_transaction'):
                                 world.api_changes -= staged
                                 con.set_trace_callback(None)
+                                # the caller's transaction must still be open and still hold the caller's row, whether the query
+                                # succeeded or failed (a commit shows in the file hash; a rollback would show nowhere else)
+                                try:
+                                    still = con.in_transaction and con.execute("select count(*) from tb where key = 'staged'").fetchone()[0] == 1
+                                except Exception:
+                                    still = False
+                                if not still:
+                                    world.txn_lost = {'in_transaction': bool(con.in_transaction)}
                                 try:
                                     con.rollback()
                                 except Exception:
@@ -565,6 +576,11 @@ def run_op(t, world, op):
 
 
 # ----------------------------------------------------------------------------- execution
+
+IN_PROCESS = True          # scenarios run inside the worker; violations are confirmed in a pristine interpreter (rbqlsim/zygote.py)
+COLD_START_EVERY = 40      # and every 40th run is executed there in the first place
+_js_csv_calls = [0]
+
 
 def execute(sc):
     t = core.load_tree()
